@@ -177,6 +177,8 @@ type PathEnum struct {
 	depth     int
 	callOrd   map[ssa.Value]string
 	atomBlock map[string]map[*ssa.BasicBlock]bool
+	// NonNilTables: keys of lookup atoms ("lookup(field:T.f)") of maps into which only non-nil values are ever stored
+	NonNilTables map[string]bool
 }
 
 type peState struct {
@@ -448,6 +450,10 @@ func (pe *PathEnum) branch(fr *peFrame, b *ssa.BasicBlock, f *BX, st *peState) {
 		c := st.clone()
 		c.asg[unk] = val
 		c.events = append(c.events, PEvent{Label: unk, Kind: "assume", Val: val})
+		// comma-ok lookups in a table that only ever stores non-nil values: found <=> the value is non-nil
+		if infeasible := pe.lookupImplication(unk, val, c.asg); infeasible {
+			continue
+		}
 		// implication table: isexit(K) / is(K, target) true  =>  K != nil
 		if val {
 			if k := impliedNonNil(unk); k != "" {
@@ -856,4 +862,27 @@ func Completions(p *Path, atoms []string) []map[string]bool {
 		out = append(out, asg)
 	}
 	return out
+}
+
+
+// lookupImplication applies `ok <=> value != nil` for lookups in the tables listed in NonNilTables. It returns true when
+// the new assumption contradicts what the path already established.
+func (pe *PathEnum) lookupImplication(atom string, val bool, asg map[string]bool) bool {
+	for tbl := range pe.NonNilTables {
+		okAtom, nilAtom := tbl+"#1", "nil("+tbl+"#0)"
+		switch atom {
+		case okAtom:
+			// found = val  =>  nil(value) = !val
+			if v, known := asg[nilAtom]; known && v == val {
+				return true
+			}
+			asg[nilAtom] = !val
+		case nilAtom:
+			if v, known := asg[okAtom]; known && v == val {
+				return true
+			}
+			asg[okAtom] = !val
+		}
+	}
+	return false
 }
